@@ -544,6 +544,19 @@ func runHistory(r *vkit.Run, idx int) {
 		s.curModel = tm
 		if s.rng.IntN(2) == 0 {
 			txn.Clear()
+			if s.rng.IntN(3) == 0 && !s.failed {
+				// a cleared transaction is an empty one: used as it is (no Reuse) it builds a trie of its own
+				em := map[string]uint64{}
+				s.logf("%s cleared transaction used directly", what)
+				s.verify(what+" cleared", txn, em, 1, false)
+				s.body(what+" cleared", txn, em, s.rng.IntN(8))
+				if !s.failed {
+					side := txn.Commit()
+					s.verify(what+" cleared result", &side, em, 2, true)
+					s.retainTrie(what+" cleared", side, em)
+				}
+				txn.Clear()
+			}
 			s.prevTxn = txn
 		}
 		s.verify("cur "+what, &s.cur, s.curModel, 4, true)
